@@ -317,6 +317,11 @@ def solve(ctx: Ctx, ob: Ob) -> Result:
         res.status = 'pass' if ok else ('error' if ok is None else 'fail')
         if ok is False:
             res.failed = [(ob.name, detail, 'static', None)]
+            if ob.native_custom:
+                try:
+                    res.native_verdict, res.native_text = ob.native_custom(ctx, ob, {})
+                except Exception as e:
+                    res.native_verdict, res.native_text = 'error', repr(e)
         res.wall_s = time.time() - t0
         return res
     cur = build(ctx, ob, res, 'main', ())
